@@ -343,6 +343,10 @@ def _family(ctx, index, G, uni, table):
     wl_type = rng.choice(['float'] * 10 + ['np.float64', 'np.float64', 'int', 'int', 'np.0d'])
     if wl_type == 'int':
         wl = float(rng.randint(1, 30))
+    elif rng.random() < 0.06:
+        # the wavelengths every instrument scientist types: the thermal reference 1.798 A (also the documented
+        # default), 4.75, 5, 6 ... as exact literals
+        wl = rng.choice([1.798, 1.798, 1.798, 4.75, 5.0, 6.0, 0.5, 12.0, 1.8])
     c = G.draw_scale(rng)
     tries = 0
     while not all(G.renderable(v * c) for _, v in items) and tries < 20:
@@ -808,6 +812,8 @@ def _family_body(ctx, case):
     rho, k, wl = case['density'], case['k'], case['wavelength']
     wla = _scalar(case.get('wavelength_type', 'float'), wl)      # the scalar wavelength as passed to the library
     ctx.count('wavelength_type.' + case.get('wavelength_type', 'float'))
+    if wl == 1.798:
+        ctx.count('wavelength.exactly_1.798')
     rows = case['atoms']
     keys = sorted({(Z, A, q) for Z, A, q, _ in rows})
     for Z, A, q in keys:
@@ -1085,6 +1091,7 @@ def finish(ctx):
     for Z, A, _ in uni.edep:
         ctx.require('seen.edep.%d-%d' % (Z, A), 1, 'energy-dependent entry never used in a family')
     ctx.require('families', 3000 if not ctx.thorough() else 40000, 'fewer families than the floor of the tier')
+    ctx.require('wavelength.exactly_1.798', 1, 'no family at the thermal reference wavelength 1.798 A exactly')
     ctx.require('entry_point.families', 1, 'the other documented entry points were never compared with the base call')
 
 
